@@ -7,11 +7,13 @@
    another user's tokens additionally requires the administrator's own session to carry a
    hardware-token factor.  Automation certificates can be minted only by an administrator or
    automation administrator and only for configured automation identities. *)
-From KM Require Import Base.Tactics Model.Auth Model.Authz Model.AdminCache Proofs.Authz Proofs.AdminCache.
+From KM Require Import Base.Bytes Base.Tactics Model.Auth Model.AuthGate Model.Routes Model.Authz Model.AdminCache Proofs.Authz Proofs.AdminCache Proofs.AuthzGate.
 Import ListNotations.
 
 (* every authorization test: allowed means own data, or administrator (and a U2F session
-   unless the operation is plain user administration / viewing) *)
+   unless the operation is plain user administration / viewing).  Names are byte strings:
+   "own" is byte equality of the effective target with the authenticated name as stored —
+   whatever the normalisation setting; two names that differ only in letter case are two users *)
 Theorem c08_self_or_admin : forall c adm actor level target o,
   o <> RoleCert ->
   authorize c adm actor level target o = Allow ->
@@ -19,7 +21,7 @@ Theorem c08_self_or_admin : forall c adm actor level target o,
 Proof. exact authorize_sound. Qed.
 
 Theorem c08_admin_only : forall c adm actor level target o,
-  user_admin_op o = true \/ (o = ViewProfile /\ target <> 0%N) ->
+  user_admin_op o = true \/ (o = ViewProfile /\ target <> []) ->
   authorize c adm actor level target o = Allow -> adm = true.
 Proof. exact admin_only. Qed.
 
@@ -39,7 +41,7 @@ Proof. exact raw_is_admin_true. Qed.
 Theorem c08_rolecert : forall c s r,
   r_op r = RoleCert -> snd (step c s r) = ROk ->
   exists actor level,
-    authenticate (required_for c RoleCert) (r_cred r) = Some (actor, level) /\
+    authenticate (required_for c RoleCert) (resolve c (r_cred r)) = Some (actor, level) /\
     (r_adm r = true \/ In actor (automation_admins c)) /\
     is_automation_identity c (r_target r) (r_dir_target r) /\
     fst (step c s r) = s.
@@ -50,16 +52,16 @@ Proof. exact rolecert_sound. Qed.
 Theorem c08_ok_authorized : forall c s r,
   snd (step c s r) = ROk ->
   exists actor level,
-    authenticate (required_for c (r_op r)) (r_cred r) = Some (actor, level) /\
+    authenticate (required_for c (r_op r)) (resolve c (r_cred r)) = Some (actor, level) /\
     authorize c (r_adm r) actor level (r_target r) (r_op r) = Allow.
 Proof. exact ok_authorized. Qed.
 
 (* a request that is not authenticated, or that its handler's test refuses, leaves every stored
    profile unchanged and is not answered with a success *)
 Theorem c08_profile_untouched : forall c s r,
-  authenticate (required_for c (r_op r)) (r_cred r) = None \/
+  authenticate (required_for c (r_op r)) (resolve c (r_cred r)) = None \/
   (exists actor level,
-     authenticate (required_for c (r_op r)) (r_cred r) = Some (actor, level) /\
+     authenticate (required_for c (r_op r)) (resolve c (r_cred r)) = Some (actor, level) /\
      authorize c (r_adm r) actor level (r_target r) (r_op r) = Deny) ->
   fst (step c s r) = s /\ snd (step c s r) <> ROk.
 Proof.
@@ -74,7 +76,7 @@ Proof. exact not_ok_untouched. Qed.
 
 (* an allowed request touches the row of its effective target only *)
 Theorem c08_only_target_changes : forall c s r actor level u,
-  authenticate (required_for c (r_op r)) (r_cred r) = Some (actor, level) ->
+  authenticate (required_for c (r_op r)) (resolve c (r_cred r)) = Some (actor, level) ->
   u <> effective_target actor (r_target r) (r_op r) ->
   find (fst (step c s r)) u = find s u.
 Proof. exact only_target_changes. Qed.
@@ -85,14 +87,14 @@ Theorem c08_history : forall c reqs s v,
   find (run c s reqs) v <> find s v ->
   exists r actor level,
     In r reqs /\
-    authenticate (required_for c (r_op r)) (r_cred r) = Some (actor, level) /\
+    authenticate (required_for c (r_op r)) (resolve c (r_cred r)) = Some (actor, level) /\
     may_act (r_adm r) actor level v (r_op r).
 Proof. exact history_sound. Qed.
 
 (* ---- the five-minute memo of the admin verdict ---- *)
 
 (* one query of a trace: the clock readings, the user, and what the directory would answer *)
-Definition trace_query (c : cfg) (x : Z * Z * N * answer) : query :=
+Definition trace_query (c : cfg) (x : Z * Z * name * answer) : query :=
   let '(t, tp, u, ans) := x in
   {| q_t := t; q_tp := tp; q_user := u; q_raw := raw_is_admin c u ans |}.
 
@@ -138,49 +140,203 @@ Proof.
   exact (granted_has_source five_minutes _ (c08_cache c c0 trace H0) o Hin Hv).
 Qed.
 
+(* ---- spelling of names ---- *)
+
+(* the session somebody obtains by logging in under some spelling: with normalisation on its
+   subject is the lower-case form, with normalisation off it is the spelling as typed *)
+Theorem c08_login_subject : forall c typed l required actor level,
+  authenticate required (resolve c (Login typed l)) = Some (actor, level) ->
+  level = l /\ actor = (if disable_normalisation c then typed else map lower_byte typed).
+Proof.
+  intros c typed l required actor level. simpl. unfold normalise.
+  destruct (hasb l required); [|discriminate]. intros H. inversion H. auto.
+Qed.
+
+(* the token handlers never treat two different stored names as the same user: acting on the
+   tokens of ANY name that is not byte-equal to the authenticated one — a case variant included,
+   whether or not such an account exists — needs an administrator with a hardware-token session *)
+Theorem c08_case_variant_is_other_user : forall c adm actor level target o,
+  token_op o = true -> o <> TOTPGenerate -> o <> TOTPValidate ->
+  target <> actor ->
+  authorize c adm actor level target o = Allow ->
+  adm = true /\ hasb level bU2F = true.
+Proof.
+  intros c adm actor level target o Ho H1 H2 Hne H.
+  apply (other_tokens_need_u2f c adm actor level target o Ho); [|exact H].
+  destruct o; simpl in *; try discriminate; try exact Hne; congruence.
+Qed.
+
+(* ---- the role questions over the shared memo (IsAdminUser and isAutomationAdmin) ---- *)
+
+Definition role_query (c : cfg) (x : rkind * Z * Z * name * answer) : rquery :=
+  let '(k, t, tp, u, ans) := x in
+  {| rq_kind := k; rq_q := trace_query c (t, tp, u, ans); rq_listed := memn u (automation_admins c) |}.
+
+(* for every history of role lookups of both kinds (clock readings, users, directory answers and
+   failures as inputs): an "administrator" answer is justified by administrator evaluations
+   alone — the configured names / the directory say so now, or an administrator evaluation about
+   the same user less than five minutes ago gave that verdict (while the directory said so, or
+   while it was failing), or the directory fails now and the previous administrator verdict is
+   repeated.  "Automation administrator?" lookups contribute their administrator evaluation
+   and nothing else. *)
+Theorem c08_roles_admin_justified : forall c c0 trace pre o post,
+  c0 = None \/ c0 = Some [] ->
+  snd (rrun five_minutes c0 (map (role_query c) trace)) = pre ++ o :: post ->
+  rq_kind (ro_q o) = KAdmin ->
+  justified five_minutes (map admin_obs post) (rq_q (ro_q o)) (ro_ans o).
+Proof.
+  intros c c0 trace pre o post H0 Hs Hk.
+  exact (roles_admin_justified five_minutes c0 _ pre o post five_minutes_in_range H0 Hs Hk).
+Qed.
+
+(* an "administrator" answer `true` always has a real administrator evaluation behind it: the
+   history contains a lookup (of either kind, this one or an earlier one) about the same user at
+   which the configuration / the directory's answer made that user an administrator — by
+   configured name or by membership of a configured group.  Being on the automation
+   administrators' list, or having been answered "automation administrator: yes", is never a source. *)
+Theorem c08_roles_admin_has_source : forall c c0 trace o,
+  c0 = None \/ c0 = Some [] ->
+  In o (snd (rrun five_minutes c0 (map (role_query c) trace))) ->
+  rq_kind (ro_q o) = KAdmin -> ro_ans o = true ->
+  exists k t tp ans, In (k, t, tp, q_user (rq_q (ro_q o)), ans) trace /\
+                     is_admin_by_config c (q_user (rq_q (ro_q o))) ans.
+Proof.
+  intros c c0 trace o H0 Hin Hk Hv.
+  destruct (roles_admin_has_source five_minutes c0 _ o five_minutes_in_range H0 Hin Hk Hv) as [o2 [Hi [Hu Hr]]].
+  apply rrun_queries in Hi. apply in_map_iff in Hi. destruct Hi as [[[[[k t] tp] u] ans] [Hq Hx]].
+  rewrite <- Hq in Hu, Hr. simpl in Hu, Hr. subst u.
+  exists k, t, tp, ans. split; [exact Hx|]. apply raw_is_admin_true. exact Hr.
+Qed.
+
+(* a user whom neither the configured names nor any directory answer of the history makes an
+   administrator is answered "administrator: no" at every point of the history *)
+Theorem c08_roles_never_promoted : forall c c0 trace u,
+  c0 = None \/ c0 = Some [] ->
+  (forall k t tp ans, In (k, t, tp, u, ans) trace -> ~ is_admin_by_config c u ans) ->
+  forall o, In o (snd (rrun five_minutes c0 (map (role_query c) trace))) ->
+  rq_kind (ro_q o) = KAdmin -> q_user (rq_q (ro_q o)) = u -> ro_ans o = false.
+Proof.
+  intros c c0 trace u H0 Hnever o Hin Hk Hu.
+  destruct (ro_ans o) eqn:Hv; [|reflexivity]. exfalso.
+  destruct (c08_roles_admin_has_source c c0 trace o H0 Hin Hk Hv) as (k & t & tp & ans & Hx & Ha).
+  rewrite Hu in Hx, Ha. exact (Hnever k t tp ans Hx Ha).
+Qed.
+
+(* ---- tie to the gate and route model of C06 ---- *)
+
+(* C06 keeps users abstract (numbers); [uid] is any injective numbering of the names with
+   uid "" = 0.  The handler test of this model IS the extra rule that C06's route table declares
+   for the operation's route, whenever the C06 environment agrees with the request (web-UI mask,
+   administrator verdict, automation-administrator verdict, target) *)
+Theorem c08_authorize_is_gate_extra : forall (uid : name -> N),
+  (forall a b, uid a = uid b -> a = b) -> uid [] = 0%N ->
+  forall c env adm actor level target o,
+    env_agrees uid c env adm actor target ->
+    (authorize c adm actor level target o = Allow <-> extra_ok (extra_of o) env (uid actor) level).
+Proof. exact authorize_is_extra. Qed.
+
+(* one composed statement per route: let in by the gate with the operation's mask AND allowed by
+   the handler's test => the gate C06 declares for that route (a row of its route table) accepts
+   the request: some credential it carries proves (actor, level), the level fits the route's
+   mask, a non-GET request is same-site, the route's extra rule holds *)
+Theorem c08_gate_and_authorize : forall (uid : name -> N),
+  (forall a b, uid a = uid b -> a = b) -> uid [] = 0%N ->
+  forall c env q adm actor level target o iat,
+    env_agrees uid c env adm actor target ->
+    check_auth (e_now env) (e_limiter env) (e_deny env) (required_for c o) q = Admit (uid actor) level iat ->
+    authorize c adm actor level target o = Allow ->
+    exists r, find_row (route_of o) = Some r /\ In r route_table /\ accepts env q (rt_gate r).
+Proof. exact gate_and_authorize. Qed.
+
+Theorem c08_gate_and_authorize_may_act : forall (uid : name -> N) c env q adm actor level target o iat,
+  o <> RoleCert ->
+  env_agrees uid c env adm actor target ->
+  check_auth (e_now env) (e_limiter env) (e_deny env) (required_for c o) q = Admit (uid actor) level iat ->
+  authorize c adm actor level target o = Allow ->
+  proves (e_now env) (e_deny env) q (uid actor) level /\
+  hasb level (required_for c o) = true /\
+  (q_meth q <> GET -> origin_ok q) /\
+  may_act adm actor level (effective_target actor target o) o.
+Proof. exact gate_and_authorize_may_act. Qed.
+
 (* ---- non-vacuity ---- *)
 
-Definition ex_cfg : cfg :=
-  {| admin_users := [7%N]; admin_groups := [50%N]; automation_users := [30%N];
-     automation_user_groups := [51%N]; automation_admins := [9%N];
-     webui_required := N.lor bPassword (N.lor bU2F bTOTP) |}.
+Definition u_alice : name := [97; 108; 105; 99; 101]%N.      (* "alice" *)
+Definition u_Alice : name := [65; 108; 105; 99; 101]%N.      (* "Alice": another account when normalisation is off *)
+Definition u_bob : name := [98; 111; 98]%N.
+Definition u_admin : name := [97; 100; 109; 105; 110]%N.
+Definition u_autoadm : name := [97; 117; 116; 111; 97; 100; 109]%N.
+Definition u_svc : name := [115; 118; 99]%N.
+Definition u_gadmin : name := [103; 97; 100; 109; 105; 110]%N.
 
-(* administrator 7 with password+U2F may rename user 2's token; with password+TOTP not *)
+Definition ex_cfg : cfg :=
+  {| admin_users := [u_admin]; admin_groups := [50%N]; automation_users := [u_svc];
+     automation_user_groups := [51%N]; automation_admins := [u_autoadm];
+     webui_required := N.lor bPassword (N.lor bU2F bTOTP); disable_normalisation := false |}.
+Definition ex_cfg_cs : cfg :=
+  {| admin_users := [u_admin]; admin_groups := [50%N]; automation_users := [u_svc];
+     automation_user_groups := [51%N]; automation_admins := [u_autoadm];
+     webui_required := N.lor bPassword (N.lor bU2F bTOTP); disable_normalisation := true |}.
+
+(* administrator with password+U2F may rename bob's token; with password+TOTP not *)
 Example ex_admin_u2f_allowed :
-  authorize ex_cfg true 7 (N.lor bPassword bU2F) 2 (ManageTOTP Update) = Allow.
+  authorize ex_cfg true u_admin (N.lor bPassword bU2F) u_bob (ManageTOTP Update) = Allow.
 Proof. reflexivity. Qed.
 Example ex_admin_totp_denied :
-  authorize ex_cfg true 7 (N.lor bPassword bTOTP) 2 (ManageTOTP Update) = Deny.
+  authorize ex_cfg true u_admin (N.lor bPassword bTOTP) u_bob (ManageTOTP Update) = Deny.
 Proof. reflexivity. Qed.
 Example ex_plain_other_denied :
-  authorize ex_cfg false 1 (N.lor bPassword bU2F) 2 (ManageU2F Delete) = Deny.
+  authorize ex_cfg false u_alice (N.lor bPassword bU2F) u_bob (ManageU2F Delete) = Deny.
 Proof. reflexivity. Qed.
 Example ex_self_allowed :
-  authorize ex_cfg false 1 bPassword 1 (ManageU2F Delete) = Allow.
+  authorize ex_cfg false u_alice bPassword u_alice (ManageU2F Delete) = Allow.
 Proof. reflexivity. Qed.
+(* a name that differs in letter case only is somebody else *)
+Example ex_case_variant_denied :
+  authorize ex_cfg_cs false u_alice (N.lor bPassword bU2F) u_Alice (ManageU2F Delete) = Deny /\
+  authorize ex_cfg_cs false u_Alice (N.lor bPassword bU2F) u_alice U2FRegBegin = Deny /\
+  authorize ex_cfg_cs false u_Alice (N.lor bPassword bU2F) u_Alice U2FRegBegin = Allow.
+Proof. repeat split. Qed.
 Example ex_group_admin :
-  raw_is_admin ex_cfg 3 (Some [40%N; 50%N]) = Some true /\
-  raw_is_admin ex_cfg 3 (Some []) = Some false /\ raw_is_admin ex_cfg 3 None = None.
+  raw_is_admin ex_cfg u_gadmin (Some [40%N; 50%N]) = Some true /\
+  raw_is_admin ex_cfg u_gadmin (Some []) = Some false /\ raw_is_admin ex_cfg u_gadmin None = None.
 Proof. repeat split. Qed.
 
 Definition ex_store : store :=
-  [(2%N, {| p_u2f := []; p_wa := []; p_totp := [(0%Z, {| tk_name := 11; tk_enabled := true |})];
+  [(u_bob, {| p_u2f := []; p_wa := []; p_totp := [(0%Z, {| tk_name := TN 11; tk_enabled := true |})];
             p_regchal := false; p_pending_totp := false; p_wa_session := false;
             p_bootstrap := false; p_registered := true |})].
 Definition ex_req (cr : cred) (adm : bool) : request :=
-  {| r_cred := cr; r_post := true; r_op := ManageTOTP Delete; r_target := 2; r_index := Some 0%Z;
+  {| r_cred := cr; r_post := true; r_op := ManageTOTP Delete; r_target := u_bob; r_index := Some 0%Z;
      r_name := 0; r_proof := PMalformed; r_adm := adm; r_dir_target := None; r_params_ok := false |}.
 Example ex_step_allowed :
-  step ex_cfg ex_store (ex_req (Session 7 (N.lor bPassword bU2F)) true)
-  = ([(2%N, {| p_u2f := []; p_wa := []; p_totp := []; p_regchal := false; p_pending_totp := false;
+  step ex_cfg ex_store (ex_req (Session u_admin (N.lor bPassword bU2F)) true)
+  = ([(u_bob, {| p_u2f := []; p_wa := []; p_totp := []; p_regchal := false; p_pending_totp := false;
                p_wa_session := false; p_bootstrap := false; p_registered := true |})], ROk).
 Proof. reflexivity. Qed.
 Example ex_step_denied :
-  step ex_cfg ex_store (ex_req (Session 7 (N.lor bPassword bTOTP)) true) = (ex_store, RDenied).
+  step ex_cfg ex_store (ex_req (Session u_admin (N.lor bPassword bTOTP)) true) = (ex_store, RDenied).
 Proof. reflexivity. Qed.
+(* logging in as "Bob": with normalisation the session is bob's own, without it is somebody else's *)
+Example ex_login_spelling :
+  let Bob : name := [66; 111; 98]%N in
+  snd (step ex_cfg ex_store (ex_req (Login Bob bPassword) false)) = ROk /\
+  step ex_cfg_cs ex_store (ex_req (Login Bob bPassword) false) = (ex_store, RDenied).
+Proof. split; reflexivity. Qed.
 Example ex_rolecert_ok :
   snd (step ex_cfg ex_store
-        {| r_cred := KMCert 9; r_post := true; r_op := RoleCert; r_target := 30; r_index := None;
+        {| r_cred := KMCert u_autoadm; r_post := true; r_op := RoleCert; r_target := u_svc; r_index := None;
            r_name := 0; r_proof := PMalformed; r_adm := false; r_dir_target := Some [];
            r_params_ok := true |}) = ROk.
 Proof. reflexivity. Qed.
+
+(* the role memo: an automation administrator asks for role certificates (answered yes) and is
+   still no administrator a moment later; a memo shared between the two questions and keyed by
+   the name alone would promote them *)
+Definition ex_rq (k : rkind) (t : Z) : rkind * Z * Z * name * answer := (k, t, t, u_autoadm, Some []).
+Example ex_roles_separate :
+  ranswers five_minutes (Some []) (map (role_query ex_cfg) [ex_rq KAutoAdmin 10; ex_rq KAdmin 20; ex_rq KAutoAdmin 30; ex_rq KAdmin 40])
+  = [true; false; true; false] /\
+  ranswers_shared five_minutes (Some []) (map (role_query ex_cfg) [ex_rq KAutoAdmin 10; ex_rq KAdmin 20])
+  = [true; true].
+Proof. vm_compute. split; reflexivity. Qed.
